@@ -2,7 +2,8 @@
 //! to `dealloc` equals the layout allocated (Rust-level UB that AddressSanitizer cannot see),
 //! guards each block with a canary, detects double frees, keeps per-thread live/peak byte
 //! counters (bytes held by simulated storage excluded) and can return null for one armed
-//! (size, align). Lock-free; never allocates.
+//! (size, align). Freed blocks are poisoned and parked in a per-thread quarantine. Lock-free;
+//! never allocates.
 
 use std::alloc::{GlobalAlloc, Layout, System};
 use std::cell::Cell;
@@ -26,6 +27,55 @@ thread_local! {
     static T_PEAK: Cell<u64> = const { Cell::new(0) };
     static T_STORAGE: Cell<bool> = const { Cell::new(false) };
     static T_ALLOCS: Cell<u64> = const { Cell::new(0) };
+}
+
+/// Freed blocks are not handed back to the system allocator at once: they wait, filled with the
+/// poison byte, in a per-thread FIFO (like a sanitizer's quarantine), so that a read through a
+/// dangling pointer yields poison deterministically instead of whatever the block was reused for,
+/// and a write through one is found when the block leaves the quarantine.
+const Q_SLOTS: usize = 512;
+const Q_BYTES: usize = 3 << 20;
+const Q_MAX_BLOCK: usize = 1 << 20;
+
+struct Quarantine {
+    base: [*mut u8; Q_SLOTS],
+    under_size: [usize; Q_SLOTS],
+    under_align: [usize; Q_SLOTS],
+    user_off: [usize; Q_SLOTS],
+    user_size: [usize; Q_SLOTS],
+    head: usize,
+    len: usize,
+    bytes: usize,
+}
+
+thread_local! {
+    static T_Q: std::cell::UnsafeCell<Quarantine> = const {
+        std::cell::UnsafeCell::new(Quarantine {
+            base: [std::ptr::null_mut(); Q_SLOTS],
+            under_size: [0; Q_SLOTS],
+            under_align: [0; Q_SLOTS],
+            user_off: [0; Q_SLOTS],
+            user_size: [0; Q_SLOTS],
+            head: 0,
+            len: 0,
+            bytes: 0,
+        })
+    };
+}
+
+unsafe fn q_evict_one(q: &mut Quarantine) {
+    let i = q.head;
+    let user = q.base[i].add(q.user_off[i]);
+    let n = q.user_size[i];
+    // the poison must be intact: nothing may have written to the block after it was freed
+    let sl = std::slice::from_raw_parts(user, n);
+    if let Some(pos) = sl.iter().position(|b| *b != 0xDD) {
+        report(5, n as u64, pos as u64);
+    }
+    System.dealloc(q.base[i], Layout::from_size_align_unchecked(q.under_size[i], q.under_align[i]));
+    q.bytes -= q.under_size[i];
+    q.head = (q.head + 1) % Q_SLOTS;
+    q.len -= 1;
 }
 
 pub struct VerifAlloc;
@@ -77,6 +127,9 @@ unsafe impl GlobalAlloc for VerifAlloc {
         h.add(3).write(storage as u64);
         (user.add(layout.size()) as *mut [u8; 8]).write(CANARY.to_le_bytes());
         if !storage {
+            // fresh memory is junk, and the same junk in every process: a read of bytes that were never
+            // written yields 0xCD deterministically (alloc_zeroed overwrites it with zeros afterwards)
+            std::ptr::write_bytes(user, 0xCD, layout.size());
             let _ = T_LIVE.try_with(|l| {
                 let v = l.get() + layout.size() as u64;
                 l.set(v);
@@ -117,6 +170,27 @@ unsafe impl GlobalAlloc for VerifAlloc {
         }
         let hdr = hdr_for(align);
         let under = Layout::from_size_align_unchecked(size + hdr + 8, align.max(16));
+        if !storage && under.size() <= Q_MAX_BLOCK {
+            let parked = T_Q
+                .try_with(|q| {
+                    let q = &mut *q.get();
+                    while q.len == Q_SLOTS || (q.len > 0 && q.bytes + under.size() > Q_BYTES) {
+                        q_evict_one(q);
+                    }
+                    let i = (q.head + q.len) % Q_SLOTS;
+                    q.base[i] = ptr.sub(hdr);
+                    q.under_size[i] = under.size();
+                    q.under_align[i] = under.align();
+                    q.user_off[i] = hdr;
+                    q.user_size[i] = size;
+                    q.len += 1;
+                    q.bytes += under.size();
+                })
+                .is_ok();
+            if parked {
+                return;
+            }
+        }
         System.dealloc(ptr.sub(hdr), under);
     }
 }
@@ -185,6 +259,7 @@ pub fn take_error() -> Option<String> {
         2 => format!("double free of a block (size {}, align {}) [{} report(s)]", a, b, n),
         3 => format!("free of a pointer this allocator never returned (size {}, align {}) [{} report(s)]", a, b, n),
         4 => format!("write past the end of an allocation of size {} (canary overwritten) [{} report(s)]", a, n),
+        5 => format!("write to freed memory: a freed block of {} bytes was modified at offset {} while it waited in the quarantine [{} report(s)]", a, b, n),
         _ => format!("allocator misuse kind {} [{} report(s)]", kind, n),
     })
 }
